@@ -5,14 +5,19 @@
      case_holds:  the property's clauses hold for every call of the observed history (monitors p_chk / m_chk / s_chk / q_chk,
                   which follow the OBSERVED results and never look at the model's state). *)
 From Coq Require Import ZArith List Bool.
-Require Export C12_Base C12_Pipe C12_MQ C12_Sync C12_Pri.
+Require Export C12_Base C12_Pipe C12_MQ C12_Sync C12_Pri C12_Race.
 Import ListNotations.
 
 Inductive case :=
   | CPipe (k : pkind) (n : Z) (h : list (pop * res))        (* q.NewQ(WithSize(n)) / async.NewQ(n) / mux.NewQ(n) *)
   | CMQ (cm rm : Z) (h : list (mop * res))                  (* mq.NewMQ(WithQCtrlSize(cm), WithQReqSize(rm)) *)
   | CSync (h : list (sop * res))                            (* syncq.NewSyncQueue() *)
-  | CPri (n : Z) (h : list (qop * res)).                    (* priq.NewPriQueue(n) *)
+  | CPri (n : Z) (h : list (qop * res))                     (* priq.NewPriQueue(n) *)
+  (* concurrent rounds "add versus close" (C12_Race.v): the calls with results and invocation / response ticks, and the
+     harness' witness linearisation (indices into the call list) *)
+  | CRacePipe (k : pkind) (n : Z) (cs : list (pop * res * Z * Z)) (lin : list nat)
+  | CRaceMQ (cm rm : Z) (cs : list (mop * res * Z * Z)) (lin : list nat)
+  | CRaceSync (cs : list (sop * res * Z * Z)) (lin : list nat).
 
 Definition case_accept (c : case) : bool :=
   match c with
@@ -20,6 +25,9 @@ Definition case_accept (c : case) : bool :=
   | CMQ cm rm h => m_accept cm rm h
   | CSync h => s_accept h
   | CPri n h => q_accept n h
+  | CRacePipe k n cs lin => pr_accept k n cs lin
+  | CRaceMQ cm rm cs lin => mr_accept cm rm cs lin
+  | CRaceSync cs lin => sr_accept cs lin
   end.
 Definition case_holds (c : case) : bool :=
   match c with
@@ -27,15 +35,21 @@ Definition case_holds (c : case) : bool :=
   | CMQ cm rm h => m_holds cm rm h
   | CSync h => s_holds h
   | CPri n h => q_holds n h
+  | CRacePipe k n cs lin => pr_holds cs
+  | CRaceMQ cm rm cs lin => mr_holds cs
+  | CRaceSync cs lin => sr_holds cs
   end.
 
 Theorem case_sound : forall c, case_accept c = true -> case_holds c = true.
 Proof.
-  intros [k n h|cm rm h|h|n h]; cbn [case_accept case_holds].
+  intros [k n h|cm rm h|h|n h|k n cs lin|cm rm cs lin|cs lin]; cbn [case_accept case_holds].
   - apply p_accept_sound.
   - apply m_accept_sound.
   - apply s_accept_sound.
   - apply q_accept_sound.
+  - apply r_accept_holds.
+  - apply r_accept_holds.
+  - apply r_accept_holds.
 Qed.
 
 (* ---- non-vacuity: concrete histories (every clause of the property shows up at least once) ---- *)
